@@ -160,14 +160,20 @@ class Checker:
                 if caller is not None and f == caller:
                     raise OutOfGuard("recursion")
                 for a in node.args:
-                    lit = isinstance(a, ast.Constant) and isinstance(a.value, (bool, int)) and not isinstance(a.value, float)
-                    if not (isinstance(a, ast.Name) or lit):
+                    if not arg_shape_ok(a):
                         raise OutOfGuard("call argument shape")
                 self.note_call(f, tuple(ks))
                 if caller is not None:
                     self.call_log.add((f, tuple(ks)))
                     if self._argchecks is not None:
                         self._argchecks += [(a.id, kk) for a, kk in zip(node.args, ks) if isinstance(a, ast.Name)]
+                        for a in node.args:
+                            if not isinstance(a, ast.Name):
+                                for sub in ast.walk(a):
+                                    if isinstance(sub, ast.Name):
+                                        if env.get(sub.id) == "bool":
+                                            raise OutOfGuard("bool name inside an expression argument")
+                                        self._argchecks.append((sub.id, env.get(sub.id)))
                 if f not in self.known:
                     if caller is None or "str" in ks:
                         raise OutOfGuard("call of a helper that has no source yet")
@@ -362,6 +368,20 @@ class Checker:
                 raise OutOfGuard(t)
 
 
+def arg_shape_ok(a, top=True):
+    """call arguments whose C++ type is exactly their label: names, int / bool literals, and + - * over int / float NAMES and int
+    literals (float op int is float in C++; a float literal would be a double: overload ambiguity is C06's subject)"""
+    if isinstance(a, ast.Name):
+        return True
+    if isinstance(a, ast.Constant):
+        if isinstance(a.value, bool):
+            return top
+        return isinstance(a.value, int)
+    if isinstance(a, ast.BinOp) and isinstance(a.op, (ast.Add, ast.Sub, ast.Mult)):
+        return arg_shape_ok(a.left, False) and arg_shape_ok(a.right, False)
+    return False
+
+
 def cxx_rank(arg, par):
     """rank of the implicit conversion of a C++ argument of kind arg to a parameter of kind par (None: not viable)"""
     if arg == par:
@@ -488,7 +508,7 @@ class FnGen:
                       "forward_call_sites_reaching_a_variant_other_than_the_first_declared": 0,
                       "forward_calls_through_another_helper": 0, "helpers_with_two_variants": 0, "helpers_with_three_or_more_variants": 0,
                       "forward_callee_variants_by_kind": {}, "rejected_stale_forward_variant": 0, "forward_orders": {},
-                      "later_helper_calling_a_caller_above": 0}
+                      "later_helper_calling_a_caller_above": 0, "expression_arguments": 0}
 
     # ---- polymorphic expressions over names
     def atom(self, names, lits=True):
@@ -677,6 +697,17 @@ class FnGen:
             return rng.choice(FLT_LITS)
         return self.expr(rng.choice([0, 1, 1, 2]), names)
 
+    def expr_arg(self, kind, by_kind):
+        """an argument EXPRESSION whose C++ type is its label: int names / literals with + - *, a float name with an int operand"""
+        rng = self.rng
+        self.stats["expression_arguments"] += 1
+        ints = by_kind.get("int") or ["3"]
+        if kind == "int":
+            return f"({rng.choice(ints)} {rng.choice(['+', '-', '*'])} {rng.choice(['1', '2', rng.choice(ints)])})"
+        x = rng.choice(by_kind["float"])
+        other = rng.choice(["2", "3", rng.choice(ints), rng.choice(by_kind["float"])])
+        return f"({x} {rng.choice(['+', '-', '*'])} {other})" if rng.random() < 0.7 else f"({other} + {x})"
+
     # ---- callers emitted ABOVE the helper they call (forward calls; prototypes decide the overload inside their bodies)
     def caller_body(self, params, callees, sfx):
         """a body that calls the helpers in `callees` [(name, arity)] with its parameters, locals and int / bool literals"""
@@ -687,6 +718,9 @@ class FnGen:
 
         def arg():
             r = rng.random()
+            if r < 0.12:
+                self.stats["expression_arguments"] += 1
+                return f"({rng.choice(names)} {rng.choice(['+', '-', '*'])} {rng.choice(['1', '2', rng.choice(names)])})"
             if r < 0.7:
                 return rng.choice(names)
             if r < 0.9:
@@ -696,7 +730,7 @@ class FnGen:
         def call():
             f, ar = rng.choice(callees)
             args = [arg() for _ in range(ar)]
-            if not any(a in names for a in args):
+            if not any(n_ in a for a in args for n_ in names):
                 args[rng.randrange(ar)] = rng.choice(names)
             return f"{f}({', '.join(args)})"
 
@@ -797,7 +831,9 @@ class FnGen:
         for f, sg in seq[:rng.choice([4, 5, 6, 8])]:
             args = []
             for kx in sg:
-                if by_kind[kx] and (kx == "float" or rng.random() < 0.7):
+                if kx in ("int", "float") and rng.random() < 0.2:
+                    args.append(self.expr_arg(kx, by_kind))
+                elif by_kind[kx] and (kx == "float" or rng.random() < 0.7):
                     args.append(rng.choice(by_kind[kx]))
                 else:
                     args.append(rng.choice(["0", "1", "2", "3", "7"]) if kx == "int" else rng.choice(["True", "False"]))
@@ -863,7 +899,7 @@ class FnGen:
                     first = ck.sig_order.get(h, [ks])[0]
                     if ck.final_sig.get((h, first), first) != ck.final_sig.get((h, ks), ks):
                         fwd_nonfirst += 1
-                    if f_ not in {c_[0] for c_ in used_calls}:
+                    if (f_, sg_) not in set(used_calls):
                         through += 1
         placed, loop_body, declared_top = [], [], set()
         for pair in call_items:
@@ -986,7 +1022,9 @@ class FnGen:
         for f, sg in seq[:rng.choice([5, 6, 8])]:
             args = []
             for kx in sg:
-                if by_kind[kx] and (kx in ("float", "str") or rng.random() < 0.7):
+                if kx in ("int", "float") and by_kind[kx] and rng.random() < 0.15:
+                    args.append(self.expr_arg(kx, by_kind))
+                elif by_kind[kx] and (kx in ("float", "str") or rng.random() < 0.7):
                     args.append(rng.choice(by_kind[kx]))
                 elif kx == "int":
                     args.append(rng.choice(["0", "1", "2", "3", "7"]))
